@@ -91,6 +91,8 @@ type Transport struct {
 	Exchanges []*Exchange
 	// Hook, if set, is called at round-trip entry (scheduling point for concurrency checks).
 	Hook func(req *http.Request)
+	// Respond, if set, may replace the response the client sees (a peer answering with other bytes).
+	Respond func(x *Exchange) *http.Response
 }
 
 func (t *Transport) RoundTrip(req *http.Request) (*http.Response, error) {
@@ -104,8 +106,12 @@ func (t *Transport) RoundTrip(req *http.Request) (*http.Response, error) {
 	if err != nil {
 		return nil, err
 	}
-	x.Response.Request = req
-	return x.Response, nil
+	res := x.Response
+	if t.Respond != nil {
+		res = t.Respond(x)
+	}
+	res.Request = req
+	return res, nil
 }
 
 // Last returns the most recent exchange.
